@@ -5,6 +5,9 @@ HERE = os.path.dirname(os.path.dirname(os.path.abspath(__file__)))
 
 TS = ("Trusted: datetimes handed to zones are timestamp-backed stand-ins (engine/tsdt.py, a datetime subclass; validated against real "
       "datetime each run); whole seconds; each path witness replayed natively on real datetimes.")
+PT = ("Trusted: the text is a template (concrete structure, symbolic digits); _timelex.split is stubbed by running the real lexer on a representative "
+      "rendering (validated each run: token shapes do not depend on digit values); numeric tokens are NumTok objects and Decimal/int/float/monthrange/tz/time "
+      "as seen from dateutil.parser._parser are rebound to models (exact decimal incl. the 28-digit precision rule); each path's witness is re-parsed natively from the real string.")
 E1 = "CrossHair-core symbolic execution of the real dateutil functions, z3 deciding every path; path tree exhausted per cell"
 CHECKS = {
  # id: (technique, level category, level text, level_note, design_ref, engine)
